@@ -374,13 +374,16 @@ fn bfs09(ctx: &Ctx, start: &str, max: u32, follow: bool, depth_cap: usize) -> (u
 }
 
 pub fn c09(ctx: &Ctx) -> Report {
-    let starts = ["http://a.test/d1/d2/f?x=1", "http://a.test"];
+    let starts: Vec<&str> = match ctx.tier {
+        Tier::Quick => vec!["http://a.test/d1/d2/f?x=1", "http://a.test"],
+        Tier::Thorough => vec!["http://a.test/d1/d2/f?x=1", "http://a.test", "http://a.test:8080/d/?k=v#frag", "http://[::1]:81/a/b/"],
+    };
     let maxes: Vec<u32> = match ctx.tier {
         Tier::Quick => vec![0, 1, 2, 5],
-        Tier::Thorough => vec![0, 1, 2, 3, 5, 7],
+        Tier::Thorough => vec![0, 1, 2, 3, 4, 5, 7, 10],
     };
     let (mut st, mut tr, mut ex) = (0, 0, 0);
-    for start in starts {
+    for start in starts.iter().copied() {
         for &max in &maxes {
             for follow in [true, false] {
                 let (a, b, c) = bfs09(ctx, start, max, follow, max as usize + 2);
@@ -392,7 +395,7 @@ pub fn c09(ctx: &Ctx) -> Report {
     }
     let menu = response_menu();
     ctx.sample(json!({"response_menu_size": menu.len(), "first": menu[0], "last": menu[menu.len()-1]}));
-    ctx.sample(json!({"case": Case09{start: starts[0].into(), max: 2, follow: true, responses: vec![menu[30].clone(), menu[50].clone(), menu[0].clone()]}}));
+    ctx.sample(json!({"case": Case09{start: starts[0].to_string(), max: 2, follow: true, responses: vec![menu[30].clone(), menu[50].clone(), menu[0].clone()]}}));
     let mut rep = Report::new("model_checking");
     rep.set("states", st);
     rep.set("transitions", tr);
